@@ -38,4 +38,4 @@ Proof. vm_compute. repeat split; reflexivity. Qed.
 
 (* axioms the property theorems of this file depend on (one traversal for all of them) *)
 Definition C02_theorems := (@C02_general, @C02, @C02_parser_output, @C02_symmetric, @C02_reflexive, @C02_license_never_matches_ref, @C02_api).
-Print Assumptions C02_theorems.
+Redirect "assumptions/C02" Print Assumptions C02_theorems.
